@@ -71,6 +71,12 @@ def case(draw, tier):
         bports.append(f"b{j}")
     passthrough = draw(st.integers(0, 7)) == 0
     ret = {"arg": 0} if passthrough else f"b{len([b for b in body if b['id'].startswith('b')]) - 1}"
+    # the result may also be a captured outer port passed on unchanged (one that an inner node consumes as well - the
+    # engine cannot nest a sub-graph that returns a capture nobody inside reads)
+    used_outer = [r for b in body for r in b.get("ins", []) if isinstance(r, dict) and "outer" in r and not r.get("passive")]
+    if used_outer and draw(st.integers(0, 2)) == 0:
+        ret = {"outer": used_outer[0]["outer"]}
+        passthrough = True
     sub = {"params": ["TS[int]"] * npar, "out": "TS[int]", "stmts": body, "ret": ret}
     ins = [f"s{draw(st.integers(0, n_src - 1))}" for _ in range(npar)]
     depths = [0, 1, draw(st.sampled_from([2, 2, 3, 4 if big else 3]))]
